@@ -163,12 +163,13 @@ def gen_ops(rng, sc, length, kinds):
         if k == "call":
             ops.append(dict(op="call", inst=inst, args=args))
         elif k == "exec":
-            T = sorted(rng.sample(range(n), rng.randint(1, min(3, n))))
+            # an EMPTY selection is a selection too (nothing runs; it is not "no selection")
+            T = sorted(rng.sample(range(n), rng.randint(0 if rng.random() < 0.15 else 1, min(3, n))))
             ops.append(dict(op="exec", inst=inst, T=T, args=args))
         elif k == "setup":
             ops.append(dict(op="setup", inst=inst, T=None))
         elif k == "setupsel":
-            T = sorted(rng.sample(range(n), rng.randint(1, min(2, n))))
+            T = sorted(rng.sample(range(n), rng.randint(0 if rng.random() < 0.25 else 1, min(2, n))))
             ops.append(dict(op="setup", inst=inst, T=T))
         elif k == "fork":
             ops.append(dict(op="fork", inst=inst))
